@@ -28,7 +28,7 @@ from types import TracebackType
 from typing import Awaitable, Dict, List, Optional, Set, Tuple, Type, Union
 
 from ._cache import DNSCache
-from ._dns import DNSQuestion, DNSQuestionType
+from ._dns import DNSPointer, DNSQuestion, DNSQuestionType, DNSRecord
 from ._engine import AsyncEngine
 from ._exceptions import NonUniqueNameException, NotRunningException
 from ._handlers.multicast_outgoing_queue import MulticastOutgoingQueue
@@ -70,6 +70,7 @@ from .const import (
     _CHECK_TIME,
     _CLASS_IN,
     _CLASS_UNIQUE,
+    _DNS_OTHER_TTL,
     _FLAGS_AA,
     _FLAGS_QR_QUERY,
     _FLAGS_QR_RESPONSE,
@@ -80,6 +81,7 @@ from .const import (
     _ONE_SECOND,
     _REGISTER_TIME,
     _STARTUP_TIMEOUT,
+    _SERVICE_TYPE_ENUMERATION_NAME,
     _TYPE_PTR,
     _UNREGISTER_TIME,
 )
@@ -377,6 +379,14 @@ class Zeroconf(QuietLogger):
             # Answers built from the replaced ServiceInfo may still be waiting in
             # the multicast queues, they would advertise the old SRV/TXT after the update
             outdated = [replaced.dns_pointer(), replaced.dns_service(), replaced.dns_text()]
+            # and the addresses the host no longer has
+            assert replaced.server_key is not None
+            current: Set[DNSRecord] = set()
+            for other in self.registry.async_get_infos_server(replaced.server_key):
+                current.update(other.get_address_and_nsec_records())
+            outdated.extend(replaced.get_address_and_nsec_records() - current)
+            if not self.registry.async_get_infos_type(replaced.type.lower()):
+                outdated.append(self._service_type_enumeration_pointer(replaced.type))
             self.out_queue.async_remove_records(outdated)
             self.out_delay_queue.async_remove_records(outdated)
         return asyncio.ensure_future(self._async_broadcast_service(info, _REGISTER_TIME, None))
@@ -488,9 +498,17 @@ class Zeroconf(QuietLogger):
         broadcast_addresses = not bool(entries)
         # Answers for this service that are still waiting in the multicast
         # queues would otherwise be sent with their full TTL after the goodbye
-        withdrawn = [info.dns_pointer(), info.dns_service(), info.dns_text()]
+        withdrawn: List[DNSRecord] = [info.dns_pointer(), info.dns_service(), info.dns_text()]
         if broadcast_addresses:
             withdrawn.extend(info.get_address_and_nsec_records())
+        else:
+            # the addresses only this service had on the shared host
+            still_used: Set[DNSRecord] = set()
+            for other in entries:
+                still_used.update(other.get_address_and_nsec_records())
+            withdrawn.extend(info.get_address_and_nsec_records() - still_used)
+        if not self.registry.async_get_infos_type(info.type.lower()):
+            withdrawn.append(self._service_type_enumeration_pointer(info.type))
         self.out_queue.async_remove_records(withdrawn)
         self.out_delay_queue.async_remove_records(withdrawn)
         goodbye = asyncio.ensure_future(
@@ -500,6 +518,10 @@ class Zeroconf(QuietLogger):
         self._goodbye_tasks.add(goodbye)
         goodbye.add_done_callback(self._goodbye_tasks.discard)
         return goodbye
+
+    def _service_type_enumeration_pointer(self, type_: str) -> DNSPointer:  # pylint: disable=no-self-use
+        """The record that lists a service type in the service type enumeration."""
+        return DNSPointer(_SERVICE_TYPE_ENUMERATION_NAME, _TYPE_PTR, _CLASS_IN, _DNS_OTHER_TTL, type_, 0.0)
 
     def generate_unregister_all_services(self) -> Optional[DNSOutgoing]:
         """Generate a DNSOutgoing goodbye for all services and remove them from the registry."""
@@ -513,6 +535,7 @@ class Zeroconf(QuietLogger):
         # Answers for these services that are still waiting in the multicast
         # queues would otherwise be sent with their full TTL after the goodbye
         withdrawn = [answer for answer, _ in out.answers]
+        withdrawn.extend(self._service_type_enumeration_pointer(info.type) for info in service_infos)
         self.out_queue.async_remove_records(withdrawn)
         self.out_delay_queue.async_remove_records(withdrawn)
         return out
